@@ -94,6 +94,12 @@ func buildBank(seed int64) (*Scenario, error) {
 	b.TxE(112, 113, "huge request", users[3], Conv(users[3].FAAddress(), FCT, 3000*fct, PEG))
 	b.TxE(112, 113, "one unit of pUSD: 20 PEG units asked, share 0, refund 1", users[0], Conv(users[0].FAAddress(), USD, 1, PEG))
 	b.TxE(112, 113, "ten units of pUSD: share 4", users[0], Conv(users[0].FAAddress(), USD, 10, PEG))
+	// ONE entry with several PEG requests that differ in asset and amount: each request gets its own yield and
+	// its own refund in its own source asset (per-height bank era here, bank-row era at 119)
+	for _, h := range []uint32{107, 119} {
+		b.Tx(h, users[0], Conv(users[0].FAAddress(), USD, 10*fct+uint64(h), PEG), Conv(users[0].FAAddress(), FCT, 100*fct, PEG),
+			Conv(users[0].FAAddress(), USD, 3*fct, PEG))
+	}
 
 	// an address WITHOUT funds: an overflowing conversion first, then a PEG request -- rejected (-1), no part in the bank
 	ghost := Key("bankghost", 0)
